@@ -282,14 +282,18 @@ def _cmp_num(op, a, b):
     a, b = _coerce(a, b)
     if _both_concrete(a, b):
         a, b = _conc(a), _conc(b)
-    return {
-        "<": lambda: a < b,
-        "<=": lambda: a <= b,
-        ">": lambda: a > b,
-        ">=": lambda: a >= b,
-        "==": lambda: a == b,
-        "!=": lambda: a != b,
-    }[op]()
+    try:
+        return {
+            "<": lambda: a < b,
+            "<=": lambda: a <= b,
+            ">": lambda: a > b,
+            ">=": lambda: a >= b,
+            "==": lambda: a == b,
+            "!=": lambda: a != b,
+        }[op]()
+    except TypeError:
+        # an object without a model for this comparison (e.g. a pandas column): undecided, not a checker crash
+        raise Unsupported(f"comparison {op} between {type(a).__name__} and {type(b).__name__}") from None
 
 
 def s_not(a):
